@@ -270,6 +270,16 @@ def run(ctx):
         Pc = ctx.prog(cfg)
         ctx.guard("guard", "cipher-ctors@" + cfg, lambda: check_cipher_ctor_guards(ctx, Pc, cfg))
     ctx.guard("total", "x25519", lambda: C12.check_total(ctx, P, ["curve25519::curve25519", "curve25519::curve25519_base"]))
+    # aligned SIMD loads / stores of the BLAKE2 chaining value need the engines' 32-byte alignment (a misaligned context in a
+    # +avx build panics on a debug assertion or faults): layout facts of the AVX / AVX2 configurations (shared with C16)
+    from . import C16 as _C16
+    _lp = {"K0": P}
+    for _k in ("K4", "K5"):
+        try:
+            _lp[_k] = ctx.prog(_k)
+        except Exception:
+            pass
+    ctx.guard("layout", "blake2", lambda: _C16.check_layout(ctx, _lp))
     # overflow-assert discharge where limb arithmetic makes it non-obvious (interval abstract interpretation, shared rule
     # instances): with these, debug and release builds compute the same values in Poly1305, both field backends and the
     # 32-bit scalar code, for every input and history
